@@ -580,7 +580,7 @@ def curated_special():
 
 def run_shard(rec):
     quick = rec.tier == 'quick'
-    rec.deadline = time.time() + (60 if quick else 900)
+    rec.deadline = time.time() + (300 if quick else 900)
     idx = 0
     names = sorted(BODIES) + sorted(CLASS_BODIES)
     for tname in names:
